@@ -178,29 +178,37 @@ def V.isInp : V → Bool
   | .inp _ => true
   | _ => false
 
-/-! ### reachability by saturation (`nx.ancestors`, `nx.descendants`) -/
+/-! ### reachability (`nx.ancestors`, `nx.descendants`): breadth-first closure + an executable closedness check -/
 
-/-- add to `S` the `step`-images of its members that are not in it yet -/
-def expand (step : V → List V) (S : List V) : List V :=
-  (S.flatMap step).foldl (fun acc v => if v ∈ acc then acc else acc ++ [v]) S
-
-def sat (step : V → List V) : Nat → List V → List V
-  | 0, S => S
-  | f + 1, S =>
-    let S' := expand step S
-    if S'.length = S.length then S else sat step f S'
-
-/-- `S` is closed under `step` (checked after saturation, so that no theorem depends on the fuel) -/
+/-- `S` is closed under `step` (checked after the search, so that no theorem depends on the search or its fuel) -/
 def closedUnder (step : V → List V) (S : List V) : Bool :=
   S.all fun x => (step x).all fun y => decide (y ∈ S)
 
 def Circuit.fuel (c : Circuit) : Nat := c.nid + 2 * (c.ne + c.np + c.nc) + 2
 
+def succsIn (es : List (V × V)) (v : V) : List V := es.filterMap fun p => if p.1 = v then some p.2 else none
+def predsIn (es : List (V × V)) (v : V) : List V := es.filterMap fun p => if p.2 = v then some p.1 else none
+
+/-- breadth-first closure (frontier based; each vertex is expanded once, `fuel` bounds the number of expansions).
+    No theorem depends on this function: `incompatInfo` *checks* that the set it returns is closed. -/
+def bfs (step : V → List V) : Nat → List V → List V → List V
+  | 0, visited, _ => visited
+  | _, visited, [] => visited
+  | f + 1, visited, x :: frontier =>
+    let new := ((step x).filter fun y => !visited.contains y).eraseDups
+    bfs step f (visited ++ new) (frontier ++ new)
+
 /-- `nx.descendants(dag, v)`: everything reachable from `v` in at least one step -/
-def Circuit.descendants (c : Circuit) (v : V) : List V := sat c.succs c.fuel (c.succs v)
+def Circuit.descendants (c : Circuit) (v : V) : List V :=
+  let es := c.edgesV
+  let s0 := (succsIn es v).eraseDups
+  bfs (succsIn es) c.fuel s0 s0
 
 /-- `nx.ancestors(dag, v)` -/
-def Circuit.ancestors (c : Circuit) (v : V) : List V := sat c.preds c.fuel (c.preds v)
+def Circuit.ancestors (c : Circuit) (v : V) : List V :=
+  let es := c.edgesV
+  let s0 := (predsIn es v).eraseDups
+  bfs (predsIn es) c.fuel s0 s0
 
 structure Incompat where
   anc : List V
